@@ -471,6 +471,20 @@ func main() {
 			for _, c := range C.FuncTypes {
 				trusted = append(trusted, "functype contract (assumed for user callbacks): "+c.Name)
 			}
+			for _, k := range sortedKeys(C.Funcs) {
+				c := C.Funcs[k]
+				if c.Kind == "extern" {
+					continue
+				}
+				if c.Trusted {
+					trusted = append(trusted, "trusted contract on a zog function (body not verified): "+k)
+				} else if c.TrustedPosts {
+					trusted = append(trusted, "trusted postconditions on a zog function (body verified for safety, frames and callee preconditions only): "+k)
+				}
+				for _, u := range c.Unfolds {
+					trusted = append(trusted, "unfold assumption at entry of "+k+": "+u.Src)
+				}
+			}
 			trusted = append(trusted, "go/ssa (x/tools v0.29.0) translation of the source", "govc VC generator (this engine)", "SMT solvers z3 5.1.0 / cvc5 1.0.3 / z3 4.8.12")
 			seed := 0
 			fmt.Sscanf(os.Getenv("VERIF_SEED"), "%d", &seed)
